@@ -10,7 +10,6 @@ NOTE = "Trusts go/types + go/ssa (x/tools v0.29.0), the rule tables in /verif/ch
 
 NOT_APPLICABLE = {
     "C02": "Iterator positioning is a function of runtime keys/bounds and the iterPos state machine; no clause is visible in the shape of the code without re-deriving the algorithm (value-level).",
-    "C05": "Indexed-batch overlay correctness is value-level (SeqNumBatchBit ordering, merging of the batch iterator); its only structural clause is decided under C31/C06.",
     "C09": "The masking rule s <= r < p is three comparisons on runtime suffixes; deciding it needs the comparer's semantics (solver territory, different technique family).",
     "C14": "What a compaction writes is value-level; its structural prerequisites are decided under C03 (snapshots reach the compaction iterator), C04/C39 (views pin files) and C17 (stripes/zeroing). No clause of its own.",
     "C15": "The level invariant is over runtime key bounds and sequence numbers; the code ensuring it is arithmetic on those. CheckOrdering is a runtime detector, not a structural necessary condition.",
@@ -21,7 +20,6 @@ NOT_APPLICABLE = {
     "C32": "Span fragmentation coverage is a value-level algorithm on runtime spans.",
     "C33": "Merged iteration over levels is a value-level algorithm on runtime keys/levels.",
     "C35": "Comparer contracts quantify over all byte strings; needs a solver or exhaustive exploration, not static shape.",
-    "C44": "Separated-value read-back is value-level; its I/O gate (checksum before use) is decided under C27.",
 }
 
 PENDING_REASON = "check not built yet in this round; planned in DESIGN.md §4 (no claim is made until the rule is armed and self-tested)"
